@@ -30,11 +30,12 @@ def corpus():
 def body_factory(tier, seed):
     def body(rep, support_ok):
         g = GD.Gen(tier, seed)
-        cases = corpus() + g.all_cases()
+        # C01 assumes that the connection accepts writes
+        cases = [c for c in corpus() + g.all_cases() if c[0] != "send-fails"]
         modes = (False, True) if tier == "thorough" else (False,)
         if not support_ok:
             # the model side is unavailable: the direct oracle alone searches for a failing input
-            for (kind, version, routes, raw) in cases:
+            for (kind, version, routes, raw, info) in map(GD.norm, cases):
                 from harness import impl_dispatch as D
                 obs = D.observe_frame(version, routes, raw)
                 rep.count(repr((version, routes, raw)))
